@@ -76,5 +76,10 @@ class TabularProblem(Problem):
         return self.action_space[self._ipol[self.state_to_index(state)]]
 
 
+class InheritingProblem(TabularProblem):
+    """A user-style subclass that inherits everything (initial_value, initial_policy, ...) from its parent."""
+
+
 def make(spec, t):
-    return TabularProblem(t, prob1=spec.get("prob1", False))
+    cls = InheritingProblem if spec.get("gseed", 0) % 2 else TabularProblem
+    return cls(t, prob1=spec.get("prob1", False))
